@@ -110,6 +110,26 @@ class StartOrderMonitor(Monitor):
         if ptype.name == 'STATE' and body.get('fsm_statename') not in WORKING:
             # jobs are aborted when the instance leaves the working states (ELECTION, ending states, ...)
             self.left_working[(inst.idx, inst.incarnation)] = inst.world.now
+        if ptype.name == 'PROCESS' and not body.get('forced') and body.get('identifier') == inst.identifier:
+            # exact outcome of the requests: the target publishes every state change of its own processes (the truth
+            # sampled once per second can miss a state that lasts less than a step)
+            namespec = f"{body['group']}:{body['name']}"
+            state = int(body['state'])
+            for recs in self.pending.values():
+                rec = recs.get(namespec)
+                if rec is None or rec['resolved'] or rec['target'] != (inst.idx, inst.incarnation) \
+                        or not rec['arrived'] or rec['arrived'] == 'swallowed':
+                    continue
+                if state == RUNNING:
+                    rec['ran'] = True
+                    if not self.ref.progs[namespec]['wait_exit']:
+                        rec['resolved'] = 'running'
+                elif state == EXITED:
+                    rec['resolved'] = 'exited'
+                elif state == FATAL:
+                    rec['resolved'] = 'fatal' if not rec['ran'] else 'fatal after running'
+                elif state in (STOPPED, STOPPING):
+                    rec['resolved'] = 'stopped'
         if ptype.name == 'PROCESS' and body.get('forced') and int(body['state']) == FATAL:
             namespec = f"{body['group']}:{body['name']}"
             self.forced[(inst.idx, inst.incarnation, namespec)] = inst.world.now
